@@ -13,6 +13,7 @@ import MD.Model.Plot
 import MD.Model.Axes
 import MD.Model.Heap
 import MD.Model.PavaArr
+import MD.Model.GpavaArr
 /-! JSON-lines driver: one request per line on stdin, one response per line on stdout. -/
 open Lean MD
 
@@ -224,6 +225,19 @@ def handle (j : Json) : Except String Json := do
     let w ← getRats j "w"
     let (x, r) := MD.Arr.pavaArr (List.zip y w)
     pure (Json.mkObj [("x", ratsToJson x), ("r", natsToJson r)])
+  | "gpava_arr" =>
+    -- the in-place array program of gpava (MD/Model/GpavaArr.lean) with the functional named by "f"
+    let f ← getStr j "f"
+    let α ← getRat j "level"
+    let y ← getRats j "y"
+    let w ← getRats j "w"
+    let obs := List.zip y w
+    let res ← match f with
+      | "mean" => pure (MD.Arr.gpavaArr wmean obs)
+      | "expectile" => pure (MD.Arr.gpavaArr (expectile α) obs)
+      | "qlower" => pure (MD.Arr.gpavaArr (qLower α) obs)
+      | _ => throw s!"unknown functional {f}"
+    pure (Json.mkObj [("x", ratsToJson res.1), ("r", natsToJson res.2)])
   | "gpava" =>
     let f ← getStr j "f"
     let α ← getRat j "level"
